@@ -313,9 +313,8 @@ pub fn run(tier: Tier) -> i32 {
         required,
         replay: &replay,
     });
-    if rc == 0 && !missing.is_empty() {
-        for m in &missing { eprintln!("MACHINERY-FAILURE: branch not reached by the constructed space: {}", m); }
-        return 2;
-    }
+    // Hook counters are reported coverage, not a gate (DESIGN §3.5): a legitimate rewrite of the
+    // division may move or remove the instrumented branches.
+    for m in &missing { eprintln!("note: instrumented branch not reached (reported in evidence, not a failure): {}", m); }
     rc
 }
